@@ -517,11 +517,15 @@ func main() {
 	if err != nil {
 		vfgo.Fatalf("listen: %v", err)
 	}
-	tainted := 0
+	tainted, nviol := 0, 0
 	for _, r := range vfgo.Cases[row]() {
 		small := row{Prog: r.Prog}
 		pristine()
 		var out outcome
+		if tainted > 40 && nviol > 20 {
+			vfgo.Inconclusive(small, "skipped: package state leaks between programs (see the violations already reported); every further program would need its own process")
+			continue
+		}
 		if isPristine(sink.url) {
 			out = runProgram(r, sink)
 		} else {
@@ -539,6 +543,7 @@ func main() {
 		case "ok":
 			vfgo.OK(small, out.Class, out.Obs)
 		case "violation":
+			nviol++
 			vfgo.Violation(small, out.Class, out.Key, out.Detail)
 		default:
 			vfgo.Inconclusive(small, out.Detail)
